@@ -111,14 +111,4 @@ Definition spherical_axis (r theta phi : T) (axis : list T) : res (list T) :=
   | _ => Exit
   end.
 
-(** which branch a call takes (0 plain, 1 antiparallel, 2 general): printed by the driver for the
-    non-triviality rule only *)
-Definition spherical_branch (axis : list T) : Z :=
-  let ev := vnormalized axis in
-  let ev0 := nth0 Ops ev 0 in
-  let ev1 := nth0 Ops ev 1 in
-  let ev2 := nth0 Ops ev 2 in
-  let aux := nsqrt Ops (ev0 * ev0 + ev1 * ev1) in
-  if neqb Ops (vnorm axis) zero || (neqb Ops aux zero && ngtb Ops ev2 zero) then 0%Z
-  else if neqb Ops aux zero then 1%Z else 2%Z.
 End C16.
